@@ -152,8 +152,15 @@ def run(chk, replay=None):
     else:
         acases = []
         for mode in ("leader", "other"):
-            for j, op in enumerate(["async_add", "route_set", "cfgroute_set", "async_del", "route_del", "cfgroute_del"]):
-                acases.append({"mode": mode, "op": op, "key": "a%d" % (j % 3), "value": "v%d-%d" % (j, rng.randrange(1000))})
+            for j, op in enumerate(["async_add", "route_set", "cfgroute_set", "grpc_publish", "http_publish",
+                                    "async_del", "route_del", "cfgroute_del", "grpc_remove", "http_delete"]):
+                acases.append({"mode": mode, "op": op, "key": "a%d" % (j % 5), "value": "v%d-%d" % (j, rng.randrange(1000))})
+        # a lagging follower: the node that does not lead has APPLIED an older value; publishing that very content
+        # (or another one), or removing the key, through any entry point must not be acknowledged and must leave what it serves
+        for j, op in enumerate(["grpc_publish", "http_publish", "cfgroute_set", "grpc_publish", "http_publish", "grpc_remove", "http_delete"]):
+            stale = "stale-%d" % rng.randrange(1000)
+            acases.append({"mode": "other", "op": op, "key": "p%d" % j, "preload": stale,
+                           "value": stale if j < 3 else "new-%d" % rng.randrange(1000)})
         ares = lib.harness_run("ackchain", acases, timeout=180)
         if any(isinstance(r["answer"], dict) and "Mailbox has closed" in str(r["answer"]) for c, r in zip(acases, ares) if c["mode"] == "leader"):
             ares = lib.harness_run("ackchain", acases, timeout=180)     # actor start-up race of the in-process node: once more
@@ -161,7 +168,12 @@ def run(chk, replay=None):
             n_eval += 1
             nontrivial.add(("ackchain", c["mode"], c["op"]))
             acked_ = r["answer"] == "ok"
-            is_add = c["op"].endswith("set") or c["op"].endswith("add")
+            is_add = c["op"].endswith(("set", "add", "publish"))
+            if c["mode"] == "other" and c.get("preload") is not None and r["served"] != c["preload"]:
+                chk.classify("uncommitted-served:%s" % c["op"],
+                             "%s of %r on a node that does not lead (it had applied %r) was answered %s and the node now serves %r: "
+                             "content that was never committed" % (c["op"], c["value"], c["preload"], r["answer"], r["served"]),
+                             {"suite": "ackchain", "case": c, "impl": r})
             if c["mode"] == "other" and acked_:
                 chk.classify("ack-without-commit:%s" % c["op"],
                              "%s on a node whose raft core is not the leader (client_write answers ForwardToLeader) was answered Ok "
